@@ -119,6 +119,8 @@ def _kernel_event(e, K):
         # every block is uniform and carries its own kernel's index
         r["blocks_ok"] = all(mins[i] == maxs[i] and decode(mins[i])[2] == i + 1 for i in range(K))
         r["wrote"] = decode(fl[0])
+    if e["kind"] == "init_state":
+        r["chain_seen"] = e["x0"]
     if e["kind"] == "tune":
         r["hl"] = e["x0"]
         r["slow"] = bool(e["x1"])
@@ -169,7 +171,7 @@ def run(ops, K=2, needs_hist=(2,), chains=2, seed=0, J=1, init_cfgs=(), included
         keys = [f"p{k}" for k in range(1, K + 1)]
         hdr = {"K": K, "J": J, "needs": sorted(needs_hist), "chain": 0, "init": list(init_cfgs), "kernel_keys": keys,
                "included": list(included), "excluded": list(excluded), "nq": nq, "via_builder": via_builder, "seed": seed,
-               "lenient": False, "postkey": "", "derived": {},
+               "lenient": False, "postkey": "", "derived": {}, "init_chain": 0,
                "scenario": {"ops": [list(o) for o in ops], "K": K, "needs_hist": list(needs_hist), "chains": chains,
                             "seed": seed, "J": J, "init_cfgs": list(init_cfgs), "included": list(included),
                             "excluded": list(excluded), "store_kernel_states": store_kernel_states,
@@ -299,6 +301,8 @@ def run(ops, K=2, needs_hist=(2,), chains=2, seed=0, J=1, init_cfgs=(), included
         hdr = {"K": K, "J": J, "needs": sorted(needs_hist), "chain": c, "init": list(init_cfgs),
                "kernel_keys": keys, "included": list(included), "excluded": list(excluded), "nq": nq,
                "via_builder": via_builder, "seed": seed, "lenient": False,
+               # the chain number held by the initial model state of this chain (the builder replicates one state)
+               "init_chain": 0 if via_builder else c,
                "postkey": ([k for k in keys if k not in excluded] + [""])[0]}
         hdr["scenario"] = {"ops": [list(o) for o in ops], "K": K, "needs_hist": list(needs_hist), "chains": chains,
                            "seed": seed, "J": J, "init_cfgs": list(init_cfgs), "included": list(included),
